@@ -108,9 +108,12 @@ def kani(P, u, prop):
 #[kani::proof]
 pub fn eq_h() { let a = oracle::mk(&mut KaniSrc); let b = oracle::mk(&mut KaniSrc); let r = a == b; assert!(r == oracle::eq(&a, &b), "contract: (a == b) == oracle::eq(a, b)"); kani::cover!(true); }
 #[kani::proof]
+pub fn eq_alias_h() { let a = oracle::mk(&mut KaniSrc); let r = a == a; assert!(r == oracle::eq(&a, &a), "contract: (a == a) through the same reference == oracle::eq(a, a)"); kani::cover!(true); }
+#[kani::proof]
 pub fn ne_h() { let a = oracle::mk(&mut KaniSrc); let b = oracle::mk(&mut KaniSrc); let r = a != b; assert!(r == !oracle::eq(&a, &b), "contract: (a != b) == !oracle::eq(a, b)"); kani::cover!(true); }
 """)
     u.kani_obls["eq_h"] = ("%s/%s/PartialEq::eq/contract" % (prop, P.pid), "(a == b) == oracle::eq(a, b)")
+    u.kani_obls["eq_alias_h"] = ("%s/%s/PartialEq::eq/contract(aliased operands)" % (prop, P.pid), "(&a == &a) == oracle::eq(a, a): the result depends on the values only")
     u.kani_obls["ne_h"] = ("%s/%s/PartialEq::ne/contract" % (prop, P.pid), "(a != b) == !oracle::eq(a, b)")
     u.replay.append('let a = oracle::mk(s); let b = oracle::mk(s);\n'
-                    '    chk(out, "a == b", a == b, oracle::eq(&a, &b)); chk(out, "a != b", a != b, !oracle::eq(&a, &b));')
+                    '    chk(out, "a == b", a == b, oracle::eq(&a, &b)); chk(out, "a == a", a == a, oracle::eq(&a, &a)); chk(out, "a != b", a != b, !oracle::eq(&a, &b));')
